@@ -91,10 +91,10 @@ Definition oneof_int (valid : list Z) (v : Z) : result Z :=
 (** OneOf(...).convert(str) on a non-empty str (the [x or default] idiom never passes the empty str). *)
 Definition oneof_text (valid : list text) (v : text) : result text :=
   if existsb (text_eqb v) valid then OK v else Err Reject.
-(** Integer(length).convert(int): only the positive side is bounded: [value >= 10**length] *)
+(** Integer(length).convert(int): [abs(value) >= 10**length] raises OFXSpecError *)
 Definition integer_conv (length : option N) (v : Z) : result Z :=
   match length with
-  | Some l => if (Z.of_N (10 ^ l) <=? v)%Z then Err Reject else OK v
+  | Some l => if (Z.of_N (10 ^ l) <=? Z.abs v)%Z then Err Reject else OK v
   | None => OK v
   end.
 (** str.replace(old, new) for a non-empty [old]: left to right, non-overlapping; [skip] = characters of a
